@@ -7,10 +7,14 @@ RULE = ('distinct = distinct abstract design (hash of the AD); non-trivial = at 
 
 
 def run(rep, tier, seed):
-    rep.explanation = 'bounded stand-in only: five get_h* queries from netlist / hierarchical-instance / element roots (recursive on/off) versus an independent occurrence enumeration; duplicates; is_valid; names; flyweight canonicity; is_valid/is_unique after 10 kinds of edits'
+    rep.explanation = ('bounded stand-in only: five get_h* queries from single roots of 14 kinds (netlist, library, definition, instance, port, pins, cable, wire and '
+                       'hierarchical references to them; recursive on/off) and from mixed collections of 2-4 roots (overlapping and disjoint; union, each once) versus an '
+                       'independent occurrence enumeration; duplicates; is_valid; names; flyweight canonicity; is_valid/is_unique of held and freshly built references and '
+                       'the queries themselves after each step of 26 edit sequences, including edits above the root (top library / definition removed and re-added, '
+                       'top re-pointed, set_top_instance, top None) and degenerate elements (instance without reference, cable without wires, port without pins)')
     rep.assumptions = ['Tier B: everything outside the stated bounds is unexplored (DESIGN.md 8.12)',
                        'oracles (canon / elab / occurrence enumeration / Inv) read public attributes only and are calibrated against an AD-level elaborator']
-    fails = _designb.run_designs(rep, PID, tier, seed, RULE, extra_bounds={'roots_per_design': '<= 10 hierarchical instances, <= 5 of each element kind', 'edits': 'remove child/cable/wire/port/pin, dereference, top None/other, add instance, move child (one each per design)'})
+    fails = _designb.run_designs(rep, PID, tier, seed, RULE, extra_bounds={'roots_per_design': 'pool of <= 45 roots of 14 kinds', 'mixed_collections': '6 per query and recursive flag, 2-4 roots each', 'edit_sequences': '26 per design (each edit followed by its undo); see bounded_notes in the evidence', 'paths_through_instances_of_definitions_outside_the_netlist': 'not judged'})
     _designb.report_failures(rep, PID, fails)
 
 
